@@ -12,7 +12,10 @@
 (*    field of the header and the input, of every output its value, its     *)
 (*    script template, every key, delay, expiry, payment hash; output       *)
 (*    dropped / duplicated / added / swapped) and of the supplied witness   *)
-(*    scripts,                                                              *)
+(*    scripts                                                               *)
+(*  x histories (CommitTx!Histories): the number is fresh / already signed, *)
+(*    and for a subset of the setups and contents both again with a SIGNER  *)
+(*    RESTART (CommitTx!Restart) before the judged requests,                *)
 (* writes one line per (setup, content) with its canonical outputs and its  *)
 (* mutations for the harness (IOEnv.CT_OUT), and model-checks the           *)
 (* code-shaped StepSem / StepRaw of CommitTx.tla against the reference on   *)
@@ -128,6 +131,24 @@ NamedContents(S) ==
 LightNames == IF Thorough THEN {"bal0", "both", "four", "dup_off", "big_cltv", "no_local", "htlc_only", "both_n3"}
               ELSE {"bal0", "both", "four"}
 RetryNames == {"bal", "both"}
+(***************************************************************************)
+(* The RESTART dimension.  "restart": the channel is created, set up and    *)
+(* brought to the number of the content, THEN the signer is restored from   *)
+(* its store and every request of the base (semantic, its repetition, the   *)
+(* retries, the raw requests with their mutations) is made on the restored  *)
+(* signer: right after setup_channel (n = 0), after a signed commitment     *)
+(* (n = 1), after revocations (n = 3), without and with HTLCs.              *)
+(* "restart_retry": the restart comes after the accepted semantic request,  *)
+(* the restored signer is asked again for the number it signed before.      *)
+(* Light mutation matrix; quick: the two base setups and their inbound      *)
+(* variants; thorough: every setup of the matrix.                           *)
+(***************************************************************************)
+RestartNames == IF Thorough THEN {"bal0", "bal", "both", "both_n3", "four", "no_local", "htlc_only", "first_htlc"}
+                ELSE {"bal0", "both", "both_n3"}
+RestartRetryNames == IF Thorough THEN RetryNames ELSE {"both"}
+RestartSetups == IF Thorough THEN VariedSetups \cup FullSetups
+                 ELSE FullSetups \cup {Setup(ct, FALSE, 6, 7, 1, FO1) : ct \in CTs}
+RestartNamesOf(S) == IF S \in FullSetups THEN RestartNames ELSE IF Thorough THEN {"bal0", "both", "both_n3"} ELSE {"both"}
 
 ---------------------------------------------------------------------------
 \* the model's stand-in for the byte order of scripts (injective on the scripts of the matrix)
@@ -288,6 +309,11 @@ Bases0 ==
   \cup UNION {{BaseRec(S, nc[1], nc[2], "retry", FALSE) : nc \in {x \in NamedContents(S) : x[1] \in RetryNames}} : S \in FullSetups}
   \cup UNION {{BaseRec(S, nc[1], nc[2], "fresh", FALSE) : nc \in {x \in NamedContents(S) : x[1] \in LightNames}}
               : S \in VariedSetups \ FullSetups}
+  \cup UNION {{BaseRec(S, nc[1], nc[2], "restart", FALSE) : nc \in {x \in NamedContents(S) : x[1] \in RestartNamesOf(S)}}
+              : S \in RestartSetups}
+  \cup UNION {{BaseRec(S, nc[1], nc[2], "restart_retry", FALSE) : nc \in {x \in NamedContents(S) : x[1] \in RestartRetryNames}}
+              : S \in FullSetups}
+ASSUME \A b \in Bases0 : b.hist \in Histories
 \* ids: b per base, id per case
 BaseSeq0 == SetToSeq(Bases0)
 RECURSIVE Offset(_)
@@ -325,7 +351,10 @@ AtPosW(w, K, U) == [w EXCEPT !.p = IF @ = 0 THEN 0 ELSE PosOf(K, U[@]), !.p2 = I
 
 \* per base, evaluated once
 CanonAt == TLCEval([i \in 1..NB |-> ModelCanon(BaseSeq[i])])
-SemAt   == TLCEval([i \in 1..NB |-> StepSem(BaseSeq[i].S, BaseSeq[i].C, RangeOf(CanonAt[i].outs), SW)])
+\* the signer that answers the judged requests of a base: the one its history leaves (a restart
+\* returns the persisted signer: CommitTx!Restart)
+SignerOf(b) == SignerAt(b.S, NoRec, b.hist)
+SemAt   == TLCEval([i \in 1..NB |-> StepSem(SignerOf(BaseSeq[i]).S, BaseSeq[i].C, RangeOf(CanonAt[i].outs), SW)])
 
 CaseOf(bi, mi) ==
   LET b  == BaseSeq[bi]
@@ -351,7 +380,7 @@ RawStep == /\ mi = 0 /\ ri = 0
         /\ mi' \in 1..Len(BaseSeq[bi].muts)
         /\ UNCHANGED <<bi, ri>>
         /\ LET c == CaseOf(bi, mi')
-               r == StepRaw(c.tx, c.ws, c.b.S, c.b.C, c.pool, c.b.hist = "retry", SW) IN
+               r == StepRaw(c.tx, c.ws, SignerOf(c.b).S, c.b.C, c.pool, RetryHist(c.b.hist), SW) IN
            last' = [kind |-> "raw", tag |-> r.tag, refuse |-> Rules(c.tx, c.b.S, c.b.C, c.pool),
                     \* what the code signs is what was submitted, and for the canonical request it is
                     \* what the semantic entry point signs
@@ -365,9 +394,9 @@ RetryStep == /\ mi = 0 /\ ri = 0
              /\ UNCHANGED <<bi, mi>>
              /\ LET b == BaseSeq[bi]
                     r == b.retries[ri'] IN
-                last' = [kind |-> "retry", tag |-> StepRetry(b.S, b.C, r.C2), refuse |-> {},
+                last' = [kind |-> "retry", tag |-> StepRetry(SignerOf(b).S, b.C, r.C2), refuse |-> {},
                          \* an accepted retry signs what was signed for the recorded content
-                         signed_ok |-> StepRetry(b.S, b.C, r.C2) = "ok" => SameContent(b.C, r.C2),
+                         signed_ok |-> StepRetry(SignerOf(b).S, b.C, r.C2) = "ok" => SameContent(b.C, r.C2),
                          canon_req |-> r.kind = "same"]
 Next == RawStep \/ RetryStep
 Spec == Init /\ [][Next]_vars
@@ -389,6 +418,7 @@ TypeOK == /\ bi \in 1..NB /\ mi \in 0..Len(BaseSeq[bi].muts) /\ ri \in 0..Len(Ba
 
 \* size of the matrix (the vacuity guard - every rule is the SOLE reason of a refusal - is evaluated by
 \* ImplCommitTx on the real refusals, which is the stronger statement)
-MatrixStats == <<"CT_MATRIX", NB, NCases, NRetries>>
+NRestart == Cardinality({i \in 1..NB : RestartHist(BaseSeq[i].hist)})
+MatrixStats == <<"CT_MATRIX", NB, NCases, NRetries, NRestart>>
 ASSUME PrintT(MatrixStats)
 =============================================================================
